@@ -44,6 +44,10 @@ func TestC09MTU(t *testing.T) {
 	ev.Rule(sub, "rapid: stack spec with small inner MTUs (64..4096, so that fragmentation happens) and a recording decorator under every layer, every multiplexer kind with channel ids of differing header size, payload lengths L in {0, 1, MTU-1, MTU, MTU+1, MTU+k, part and part-count boundaries +-1}, via Tell and (where the stack offers it) Ask. Oracle: L <= MTU(): error is not ErrMTUExceeded, no recorder beneath saw a size rejection, whatever is delivered is byte-identical to the payload (loss is allowed); L > MTU(): IsErrMTUExceeded(err) and (sentinel) nothing of the refused payload is ever delivered. non-trivial = L in {MTU-1, MTU, MTU+1} on a stack with a layer that adds a header or fragments; distinct by (spec, L-MTU, verb)")
 	rapid.Check(t, func(t *rapid.T) {
 		spec := genSpec(t, specOpts{maxDepth: 3, bases: []string{"mem", "mem", "mem", "udp"}, smallMTUs: true, withRec: true, honestFrag: false})
+		if rapid.IntRange(0, 7).Draw(t, "streamStack") == 0 {
+			// a stream transport on top: the one place where a payload of exactly MTU() bytes shares a frame with a length prefix
+			spec = stack.Spec{Base: rapid.SampledFrom([]string{"mem", "udp"}).Draw(t, "streamBase"), BaseMTU: 1500, QueueLen: 64, Layers: []stack.Layer{{Kind: "rec"}, {Kind: "quic", MTU: rapid.SampledFrom([]int{0, 1000, 3000, 100000}).Draw(t, "quicMTU")}}}
+		}
 		w, err := stack.Build(spec, 2, 0)
 		if err != nil {
 			t.Fatalf("harness: cannot build %v: %v", spec, err)
@@ -165,6 +169,17 @@ func TestC09MTU(t *testing.T) {
 		if L <= mtu {
 			if p2p.IsErrMTUExceeded(sendErr) {
 				fail("%s of %d bytes <= MTU() %d was rejected with the MTU error: %v", verb, L, mtu, sendErr)
+			}
+			if reliableOverQUIC(spec) {
+				// QUIC streams neither lose nor reorder, the layers above it add no queue that could overflow and
+				// this is the only message in flight: here "sendable intact" means that it arrives.
+				ev.Class(sub, "reliable-stack")
+				if sendErr != nil {
+					fail("%s of %d bytes <= MTU() %d over a reliable stack failed: %v", verb, L, mtu, sendErr)
+				}
+				if !ev.Patient(5*time.Second, func() bool { return have(e.Data) }) {
+					fail("%s of %d bytes <= MTU() %d over a reliable stack returned nil but the payload did not arrive", verb, L, mtu)
+				}
 			}
 			for i, r := range recs {
 				if n := r.SizeRejections(); n > recsBefore[i] {
@@ -330,4 +345,26 @@ func TestC09MuxChannels(t *testing.T) {
 			}
 		}
 	})
+}
+
+// reliableOverQUIC: the stack has a QUIC layer and above it only layers that pass messages through
+// (recorders, address maps, whitelists, the multi-transport swarm, multiplexers).
+func reliableOverQUIC(spec stack.Spec) bool {
+	q := -1
+	for i, l := range spec.Layers {
+		if l.Kind == "quic" {
+			q = i
+		}
+	}
+	if q < 0 {
+		return false
+	}
+	for _, l := range spec.Layers[q+1:] {
+		switch l.Kind {
+		case "rec", "map", "wl", "multi", "mux":
+		default:
+			return false
+		}
+	}
+	return true
 }
